@@ -191,8 +191,8 @@ PROPS = {
         level="exploration",
         technique="exhaustive enumeration of bounded malloc/calloc/realloc/free histories, size-class boundary sweeps from seed heaps, every mmap placement script incl. multi-segment release and segment-junction families, and every refused mmap/mremap, on the real Dlmalloc with its system calls answered by a model kernel for anonymous memory (syscall seam); shadow-map oracle after every call",
         steps=[_s("h-alloc", "hist"), _s("h-alloc", "boundary"), _s("h-alloc", "placement"), _s("h-alloc", "oom"),
-               _s("h-alloc", "galloc", bin="h-galloc", features=["galloc-threaded"], name="galloc-threaded"),
-               _s("h-alloc", "galloc", bin="h-galloc-st", features=["galloc-single"], name="galloc-st")],
+               _s("h-alloc", "galloc", bin="h-galloc", features=["galloc-threaded"], name="galloc-threaded", timeout_quick=240, timeout_thorough=2400),
+               _s("h-alloc", "galloc", bin="h-galloc-st", features=["galloc-single"], name="galloc-st", timeout_quick=240, timeout_thorough=2400)],
         assumptions=["the model kernel places mappings inside a reserved arena (below / above-adjacent / disjoint) and turns unmapped ranges into PROT_NONE, so any touch of returned memory faults",
                      "histories to a bounded depth with <= 3 live blocks over a representative size alphabet; boundary sweep from a fixed set of seed heap states"],
     ),
